@@ -6,6 +6,7 @@ cd "$(dirname "$0")"
 export CARGO_NET_OFFLINE=true
 mkdir -p work evidence replays coq/out coq/gen
 python3 tools/translate_all.py || echo "setup: translators reported a problem (checks will report it)"
+python3 tools/mkcoqproject.py
 ( cd coq && coq_makefile -f _CoqProject -o Makefile > /dev/null && timeout 3000 make -j16 2>&1 | tail -5 )
 cp -n /repo/Cargo.lock harness/Cargo.lock 2>/dev/null
 ( cd harness && timeout 5000 cargo build --release --offline --workspace 2>&1 | tail -3 )
